@@ -67,7 +67,11 @@ def layouts(chk, lay):
     # the options field is EntryOptions{cs, bits}: selector at byte 2, option word at byte 4
     ol = layout_named(chk, lambda s: s == OPTS)
     of = {f['name']: (f['off'], f['size']) for f in ol[0]['fields']} if ol else {}
-    chk.ob('layout', 'EntryOptions {cs@0, bits@2}', of == {'cs': (0, 2), 'bits': (2, 2)}, 'found %s' % of)
+    # (private field names are free: the selector is the field of type SegmentSelector, the option word the u16)
+    byty = {}
+    for f in (ol[0]['fields'] if ol else []):
+        byty['selector' if f['ty'].get('name', '').endswith('SegmentSelector') else ('word' if f['ty'].get('k') == 'uint' and f['ty'].get('bits') == 16 else f['name'])] = (f['off'], f['size'])
+    chk.ob('layout', 'EntryOptions {code selector @0, option word @2}', byty == {'selector': (0, 2), 'word': (2, 2)}, 'found %s' % of)
     seen = set()
     for l in ents:
         if l['tys'] in seen:
@@ -368,21 +372,32 @@ def options(chk):
         return inner(v.fields[0]), v.fields[1]
 
     def one(outs):
-        return len(outs) == 1 and outs[0].kind == 'ret' and isinstance(outs[0].val, Ref) and outs[0].val.loc == ('arg', 'self') and outs[0].val.path == ()
+        # every path returns &mut self (a setter written with if/else has one path per case; each is compared with the expected
+        # word under that path's own conditions)
+        return bool(outs) and all(o.kind == 'ret' and isinstance(o.val, Ref) and o.val.loc == ('arg', 'self') and o.val.path == () for o in outs)
+
+    def agree(outs, want_bits):
+        if not one(outs):
+            return False
+        for o in outs:
+            cs_, b_ = final(o)
+            if not (same(I.resub(o.st, b_), I.resub(o.st, BV(16, want_bits))) and same(cs_, BV.sym(16, 'cs'))):
+                return False
+        return True
 
     # set_present: only bit 15 := present
     outs = run_setter('set_present', [BV.sym(1, 'p')])
     wb = list(ob)
     wb[D.GATE_P] = lit('p', 0)
     cs, bits = final(outs[0]) if one(outs) else (None, None)
-    chk.ob('options', 'set_present changes only bit 15', one(outs) and same(bits, BV(16, wb)) and same(cs, BV.sym(16, 'cs')), 'final %r / %r' % (cs, bits),
+    chk.ob('options', 'set_present changes only bit 15', agree(outs, wb), 'final %r / %r' % (cs, bits),
            fn_site(I, OPTS + '::set_present'), sample=repr(bits))
     # disable_interrupts: only bit 8 := !disable   (type 1110 interrupt gate <-> 1111 trap gate)
     outs = run_setter('disable_interrupts', [BV.sym(1, 'd')])
     wb = list(ob)
     wb[D.GATE_TYPE[0]] = b_not(lit('d', 0))
     cs, bits = final(outs[0]) if one(outs) else (None, None)
-    chk.ob('options', 'disable_interrupts changes only bit 8 := !disable', one(outs) and same(bits, BV(16, wb)) and same(cs, BV.sym(16, 'cs')),
+    chk.ob('options', 'disable_interrupts changes only bit 8 := !disable', agree(outs, wb),
            'final %r / %r' % (cs, bits), fn_site(I, OPTS + '::disable_interrupts'))
     # set_privilege_level: only bits 13..14 := DPL
     for r in range(4):
@@ -391,7 +406,7 @@ def options(chk):
         wb[D.GATE_DPL[0]] = r & 1
         wb[D.GATE_DPL[0] + 1] = (r >> 1) & 1
         cs, bits = final(outs[0]) if one(outs) else (None, None)
-        chk.ob('options', 'set_privilege_level<Ring%d> changes only bits 13..14' % r, one(outs) and same(bits, BV(16, wb)) and same(cs, BV.sym(16, 'cs')),
+        chk.ob('options', 'set_privilege_level<Ring%d> changes only bits 13..14' % r, agree(outs, wb),
                'final %r / %r' % (cs, bits), fn_site(I, OPTS + '::set_privilege_level'))
     # set_stack_index: bits 0..2 := index + 1 for index 0..6, panic otherwise (all 65536 indices by value for 0..7, cubes above)
     for idx in range(8):
@@ -401,7 +416,7 @@ def options(chk):
             for j in range(3):
                 wb[j] = ((idx + 1) >> j) & 1
             cs, bits = final(outs[0]) if one(outs) else (None, None)
-            chk.ob('options', 'set_stack_index(%d) sets IST field to %d, others unchanged' % (idx, idx + 1), one(outs) and same(bits, BV(16, wb)) and same(cs, BV.sym(16, 'cs')),
+            chk.ob('options', 'set_stack_index(%d) sets IST field to %d, others unchanged' % (idx, idx + 1), agree(outs, wb),
                    'final %r / %r' % (cs, bits), fn_site(I, OPTS + '::set_stack_index'))
         else:
             chk.ob('options', 'set_stack_index(7) is refused', bool(outs) and all(o.kind == 'panic' for o in outs), 'paths %r' % (outs,))
